@@ -90,7 +90,7 @@ if [ "${1:-}" = "selftest" ]; then
   build_plain; build_race; build_yield
   mkdir -p "$W/scratch"
   "$W/verif" selftest -n "${2:-200}" -seed "$SEED" -scratch "$W/scratch" -out "$HERE/evidence/determinism.json" \
-    -legs "section-ops=$W/verif,frames-clean=$W/verif,frames-faults=$W/verif,builder-hist=$W/verif,tail-acks=$W/verif,readers-r=$W/verif-race,readers-y=$W/verif-yield"
+    -legs "section-ops=$W/verif,frames-clean=$W/verif,frames-faults=$W/verif,builder-hist=$W/verif,builder-hist-r=$W/verif-race,tail-acks=$W/verif,readers-r=$W/verif-race,readers-y=$W/verif-yield"
   exit $?
 fi
 
@@ -105,7 +105,7 @@ case "$PROP" in
   C18) build_plain; LEGS="section-ops=$W/verif";;
   C06) build_plain; LEGS="frames-clean=$W/verif";;
   C07) build_plain; LEGS="frames-faults=$W/verif"; LEVEL=fault_enumeration;;
-  C12) build_plain; LEGS="builder-hist=$W/verif";;
+  C12) build_race; LEGS="builder-hist=$W/verif,builder-hist-r=$W/verif-race";;
   C15) build_plain; LEGS="tail-acks=$W/verif";;
   C19) build_race; build_yield; LEGS="readers-r=$W/verif-race,readers-y=$W/verif-yield";;
   *) die2 "property $PROP has no check (see MANIFEST.json not_applicable)";;
